@@ -304,6 +304,31 @@ def w_hdd_extremes(ctx, rng, i):
     ctx.bin("hddx.M", M)
 
 
+def w_hdd_hostile_rng(ctx, rng, i):
+    """HDD's clauses hold "for all numpy seeds driving its random choices": fault injection into numpy's global RNG (core.hostile_rng:
+    tail values of every distribution, first / last index, reversed permutations) while HDD runs on valid codewords, on symbols with
+    several ON slots and on empty symbols. hdd.post decides: one ON slot per symbol, valid symbols unchanged, a kept slot was ON."""
+    M = int(MS[i % len(MS)])
+    nsym = int(rng.choice([1, 4, 32]))
+    k = int(np.log2(M))
+    enc = as_bits(Pm.PPM_ENCODER(rng.integers(0, 2, nsym * k), M)) if nsym * k else np.zeros(0, np.uint8)
+    s = enc.copy().reshape(nsym, M)
+    mode = i // len(MS) % 3
+    if mode >= 1:                                    # corrupt some symbols: erase them, or add spurious ON slots
+        er = rng.random(nsym) < 0.4
+        s[er] = 0
+        s[rng.random(s.shape) < (0.2 if mode == 1 else 0.6)] = 1
+    s = s.ravel()
+    g = np.random.Generator(np.random.PCG64(int(rng.integers(2 ** 31))))
+    ctx.describe(M=M, nsym=nsym, mode=["valid codeword", "light corruption", "heavy corruption"][mode], on_counts=s.reshape(nsym, M).sum(axis=1)[:16])
+    for rep in range(4):
+        with core.quiet(), core.hostile_rng(g):
+            h = Pm.HDD(s.copy() if rep % 2 else T.binary_sequence(s), M)          # hdd.post decides
+        if mode == 0:
+            ctx.check("hdd.identity", np.array_equal(as_bits(h), enc), f"HDD is not the identity on a valid codeword (M={M}) under an extreme numpy random stream")
+    ctx.case(("hddrng", M, nsym, mode), sample=dict(M=M, nsym=nsym, mode=mode) if i < 2 else None)
+
+
 def w_sdd(ctx, rng, i):
     import opticomlib.devices as dv
     sps = int(rng.choice([2, 3, 4, 5, 8, 16, 17, 32, 64]))
@@ -398,6 +423,7 @@ WORKLOADS = [
     Workload("repo_tests", lambda ctx, rng, i: core.run_repo_tests(ctx), 1, 1, budget=1800, tiers=("thorough",)),
     Workload("sdd_two_grids", w_sdd_two_grids, 60, 3000),
     Workload("hdd_extremes", w_hdd_extremes, 160, 8000),
+    Workload("hdd_hostile_rng", w_hdd_hostile_rng, 96, 4800),
 ]
 
 
